@@ -384,6 +384,8 @@ def cmd_selftest(args):
     names = [a for a in args if not a.startswith('-')] or list(units)
     jobs = []
     for n in names:
+        if units[n].get('tier') == 'off' and n not in args:
+            continue
         for i, m in enumerate(units[n].get('selftest', [])):
             jobs.append((n, i, m))
     bad = 0
